@@ -1,7 +1,7 @@
 (* C09 — prohibited key types never appear in a Destination or RouterIdentity. *)
-From Model Require Import Bytes Prim Tables Cert KAC.
+From Model Require Import Bytes Prim Tables Cert KAC Mapping Sig LS RI.
 From Spec Require Import SpecTables.
-From Proofs Require Import TableProofs.
+From Proofs Require Import TableProofs DenyProofs.
 Open Scope Z_scope.
 
 (* the library's deny sets are exactly the specification's, for every integer code *)
@@ -10,75 +10,41 @@ Theorem C09_deny_sets_equal_spec : forall t,
   dest_signing_denied t = spec_dest_sig_prohibited t /\
   ri_crypto_denied t = spec_crypto_prohibited t /\
   ri_signing_denied t = spec_ri_sig_prohibited t.
-Proof.
-  intros t. pose proof (deny_agree_all t) as H. unfold deny_agree in H.
-  repeat rewrite Bool.andb_true_iff in H. destruct H as [[[A B] C] D].
-  repeat split; apply Bool.eqb_prop; assumption.
-Qed.
+Proof. exact deny_sets_equal_spec. Qed.
 Print Assumptions C09_deny_sets_equal_spec.
 
-(* every Destination-yielding reader built on read_destination returns only permitted types *)
-Theorem C09_read_destination_permitted : forall x k r,
-  read_destination x = Ok (k, r) ->
+(* direct paths *)
+Theorem C09_read_destination_permitted : forall x k r, read_destination x = Ok (k, r) ->
   spec_crypto_prohibited (kc_crypto_type (k_kc k)) = false /\
   spec_dest_sig_prohibited (kc_signing_type (k_kc k)) = false.
-Proof.
-  intros x k r H. unfold read_destination in H.
-  destruct (read_keys_and_cert x) as [[k0 r0]| |]; try discriminate. cbn [rbind fst] in H.
-  destruct (dest_types_ok k0) eqn:E; [|discriminate]. injection H as <- <-.
-  unfold dest_types_ok in E. apply Bool.andb_true_iff in E. destruct E as [E1 E2].
-  destruct (C09_deny_sets_equal_spec (kc_crypto_type (k_kc k0))) as [A _].
-  destruct (C09_deny_sets_equal_spec (kc_signing_type (k_kc k0))) as [_ [B _]].
-  rewrite <- A, <- B. split; apply Bool.negb_true_iff; assumption.
-Qed.
-Theorem C09_new_destination_permitted : forall k k',
-  new_destination k = Ok k' ->
+Proof. exact read_destination_permitted. Qed.
+Theorem C09_new_destination_permitted : forall k k', new_destination k = Ok k' ->
   spec_crypto_prohibited (kc_crypto_type (k_kc k')) = false /\
   spec_dest_sig_prohibited (kc_signing_type (k_kc k')) = false.
-Proof.
-  intros k k' H. unfold new_destination in H.
-  destruct (negb (kac_validate k)); [discriminate|].
-  destruct (dest_types_ok k) eqn:E; [|discriminate]. injection H as <-.
-  unfold dest_types_ok in E. apply Bool.andb_true_iff in E. destruct E as [E1 E2].
-  destruct (C09_deny_sets_equal_spec (kc_crypto_type (k_kc k))) as [A _].
-  destruct (C09_deny_sets_equal_spec (kc_signing_type (k_kc k))) as [_ [B _]].
-  rewrite <- A, <- B. split; apply Bool.negb_true_iff; assumption.
-Qed.
-Theorem C09_read_router_identity_permitted : forall x k r,
-  read_router_identity x = Ok (k, r) ->
+Proof. exact new_destination_permitted. Qed.
+Theorem C09_read_router_identity_permitted : forall x k r, read_router_identity x = Ok (k, r) ->
   spec_crypto_prohibited (kc_crypto_type (k_kc k)) = false /\
   spec_ri_sig_prohibited (kc_signing_type (k_kc k)) = false.
-Proof.
-  intros x k r H. unfold read_router_identity in H.
-  destruct (read_keys_and_cert x) as [[k0 r0]| |]; try discriminate. cbn [rbind fst] in H.
-  destruct (ri_types_ok k0) eqn:E; [|discriminate]. injection H as <- <-.
-  unfold ri_types_ok in E. apply Bool.andb_true_iff in E. destruct E as [E1 E2].
-  destruct (C09_deny_sets_equal_spec (kc_crypto_type (k_kc k0))) as [_ [_ [A _]]].
-  destruct (C09_deny_sets_equal_spec (kc_signing_type (k_kc k0))) as [_ [_ [_ B]]].
-  rewrite <- A, <- B. split; apply Bool.negb_true_iff; assumption.
-Qed.
-Theorem C09_new_router_identity_permitted : forall pub spk c pad k,
-  new_router_identity pub spk c pad = Ok k ->
+Proof. exact read_router_identity_permitted. Qed.
+Theorem C09_new_router_identity_permitted : forall pub spk c pad k, new_router_identity pub spk c pad = Ok k ->
   spec_crypto_prohibited (kc_crypto_type (k_kc k)) = false /\
   spec_ri_sig_prohibited (kc_signing_type (k_kc k)) = false.
-Proof.
-  intros pub spk c pad k H. unfold new_router_identity in H.
-  destruct (keycert_from_cert c) as [kc| |]; try discriminate. cbn [rbind] in H.
-  destruct (new_keys_and_cert kc pub pad spk) as [k0| |]; try discriminate. cbn [rbind] in H.
-  destruct (ri_types_ok k0) eqn:E; [|discriminate]. injection H as <-.
-  unfold ri_types_ok in E. apply Bool.andb_true_iff in E. destruct E as [E1 E2].
-  destruct (C09_deny_sets_equal_spec (kc_crypto_type (k_kc k0))) as [_ [_ [A _]]].
-  destruct (C09_deny_sets_equal_spec (kc_signing_type (k_kc k0))) as [_ [_ [_ B]]].
-  rewrite <- A, <- B. split; apply Bool.negb_true_iff; assumption.
-Qed.
+Proof. exact new_router_identity_permitted. Qed.
+(* embedded in the parsing of LeaseSet, LeaseSet2, MetaLeaseSet, RouterInfo *)
+Theorem C09_lease_set_destination_permitted : forall x l, read_lease_set x = Ok l -> dest_permitted (ls_dest l).
+Proof. exact lease_set_destination_permitted. Qed.
+Theorem C09_lease_set2_destination_permitted : forall x l r, read_lease_set2 x = Ok (l, r) -> dest_permitted (l2_dest l).
+Proof. exact lease_set2_destination_permitted. Qed.
+Theorem C09_meta_lease_set_destination_permitted : forall x l r, read_meta_lease_set x = Ok (l, r) -> dest_permitted (ml_dest l).
+Proof. exact meta_lease_set_destination_permitted. Qed.
+Theorem C09_router_info_identity_permitted : forall x i r, read_router_info x = Ok (i, r) -> ri_permitted (ri_ident i).
+Proof. exact router_info_identity_permitted. Qed.
+Print Assumptions C09_router_info_identity_permitted.
 (* the restriction rejects nothing else: a permitted pair is never denied *)
 Theorem C09_permitted_not_rejected : forall s c,
   spec_crypto_prohibited c = false -> spec_dest_sig_prohibited s = false ->
   dest_crypto_denied c = false /\ dest_signing_denied s = false.
-Proof.
-  intros s c Hc Hs. destruct (C09_deny_sets_equal_spec c) as [A _].
-  destruct (C09_deny_sets_equal_spec s) as [_ [B _]]. rewrite A, B. auto.
-Qed.
+Proof. exact permitted_not_rejected. Qed.
 Example C09_nonvacuous :
   dest_signing_denied 8 = true /\ dest_crypto_denied 6 = true /\ ri_signing_denied 11 = true /\
   dest_signing_denied 11 = false /\ dest_signing_denied 7 = false.
